@@ -613,7 +613,20 @@ def _one_point_branches(fn):
                 yield e.test, e.body, e.orelse, True, e.lineno
             elif _is_interp1(e.orelse):
                 yield e.test, e.orelse, e.body, False, e.lineno
-        elif isinstance(e, ast.If) and e.orelse:
+        elif isinstance(e, (ast.FunctionDef, ast.If, ast.For, ast.While, ast.With, ast.Try)):
+            # the early-return spelling: 'if T: return Interpolator1DArray(...)' followed by 'return Constant1D(...)' (or the reverse)
+            for blk in [getattr(e, f_, None) for f_ in ('body', 'orelse')]:
+                if not isinstance(blk, list):
+                    continue
+                for k_, st in enumerate(blk[:-1]):
+                    nxt = blk[k_ + 1]
+                    if isinstance(st, ast.If) and not st.orelse and len(st.body) == 1 and isinstance(st.body[0], ast.Return) \
+                            and st.body[0].value is not None and isinstance(nxt, ast.Return) and nxt.value is not None:
+                        if _is_interp1(st.body[0].value):
+                            yield st.test, st.body[0].value, nxt.value, True, st.lineno
+                        elif _is_interp1(nxt.value):
+                            yield st.test, nxt.value, st.body[0].value, False, st.lineno
+        if isinstance(e, ast.If) and e.orelse:
             for full, other, pos in ((e.body, e.orelse, True), (e.orelse, e.body, False)):
                 for st in full:
                     if isinstance(st, ast.Assign) and len(st.targets) == 1 and _is_interp1(st.value):
@@ -664,9 +677,12 @@ def _degenerate_1d(run, prog):
                 res = resolver(fn, stop=(tab, axis))
                 key = '%s|degenerate-1d:%s' % (mi.name, tab)
                 what = '%s 1D %s' % (mi.relpath.split('/')[-1], tab)
-                m = _more_than_one(test, (tab, axis))
+                base_ = ()
+                if isinstance(full.args[1], ast.BinOp) and isinstance(full.args[1].op, (ast.Div, ast.Mult)):
+                    base_ = (norm(full.args[1].left),)            # the table before a scalar normalisation has the same length
+                m = _more_than_one(test, (tab, axis) + base_)
                 if m is None:
-                    m = _more_than_one(res(test), (tab, axis))
+                    m = _more_than_one(res(test), (tab, axis) + base_)
                 if m == 'wrong' or (isinstance(m, bool) and m != pos):
                     run.fail('C07-R7', key, mi.relpath, line,
                              'the full-grid interpolant over %s is chosen under %s%s: the constant branch must be taken exactly when the axis has one point'
@@ -680,7 +696,7 @@ def _degenerate_1d(run, prog):
                         if isinstance(st_, ast.Assign) and len(st_.targets) == 1 and isinstance(st_.targets[0], ast.Name):
                             others.add(st_.targets[0].id)
                     others |= {a_.arg for a_ in fn.args.args}
-                    foreign = [o for o in sorted(others - {tab, axis}) if _more_than_one(test, (o,)) is not None]
+                    foreign = [o for o in sorted(others - {tab, axis} - set(base_)) if _more_than_one(test, (o,)) is not None]
                     if foreign:
                         run.fail('C07-R7', key + '|foreign-length', mi.relpath, line,
                                  'the choice between the interpolant over %s and its single-point constant is made on the length of %s, not of %s: with '
@@ -698,7 +714,17 @@ def _degenerate_1d(run, prog):
                     arg = res(arg)
                 while isinstance(arg, ast.Call) and dotted(arg.func) in ('float', 'np.float64') and len(arg.args) == 1:
                     arg = arg.args[0]
-                if isinstance(arg, ast.Subscript) and norm(arg.value) == tab and norm(arg.slice) in ('0', '-1'):
+                scaled = full.args[1] if isinstance(full.args[1], ast.BinOp) and isinstance(full.args[1].op, (ast.Div, ast.Mult)) else None
+                if scaled is not None and isinstance(arg, ast.Subscript) and norm(arg.slice) in ('0', '-1') \
+                        and norm(arg.value) in (norm(scaled.left), norm(scaled.right)):
+                    run.fail('C07-R7', key + '|scale', mi.relpath, line,
+                             'the full-grid branch interpolates %s but the single-point branch is the constant %s: the factor applied to the table is '
+                             'missing when the axis has one point, so the component is off by that factor' % (tab, norm(arg)))
+                elif scaled is not None and isinstance(arg, ast.BinOp) and type(arg.op) is type(scaled.op) \
+                        and isinstance(arg.left, ast.Subscript) and norm(arg.left.slice) in ('0', '-1') and norm(arg.left.value) == norm(scaled.left) \
+                        and norm(arg.right) == norm(scaled.right):
+                    run.ok('C07-R7', what, norm(test) + ' / ' + norm(sv)[:50], sample=False)
+                elif isinstance(arg, ast.Subscript) and norm(arg.value) == tab and norm(arg.slice) in ('0', '-1'):
                     run.ok('C07-R7', what, norm(test) + ' / ' + norm(sv)[:50], sample=False)
                 elif tab not in {norm(x) for x in ast.walk(arg) if isinstance(x, (ast.Name, ast.Attribute, ast.Subscript))}:
                     run.fail('C07-R7', key, mi.relpath, line,
